@@ -25,6 +25,8 @@ P = {
          'tz offsets, zone names and geodesic distances are oracles supplied by the harness (zoneinfo, timezonefinder, pyproj); one open finding (swapped GEOD.inv arguments) accepted in as-is form'),
  'C14': ('Query', 'Lean model of Filter/Query SQL builders (condition forms, render, query object state) and of SQLite evaluation of those forms; theorems: conditions ⇔ documented predicate, placeholders = params for any number of rebuilds, rebuild same answer, earlier SQL stays valid, empty filter selects all, sorted/limit/offset, count, frequent routes; correspondence on SQL text (tokenised) and on results over generated databases',
          'SQLite trusted for evaluating the rendered fragments (validated by result comparison); sample size checked statistically'),
+ 'C18': ('Config', 'theorem that the configuration singleton refines the three-state reference machine for every history (loads failing at every stage, gets, resets, reads, mutations); failed load leaves the state unchanged; overlay one-level characterisation and precedence theorem for deep_update; correspondence with Config.load/get/reset/proxy on generated op sequences and with deep_update on random nested dictionaries',
+         'pydantic (field validation, frozen models, validator order) and tomllib modelled as load stages; in-place mutation of list-valued settings is outside the property as checked'),
  'C19': ('Bada', 'generic-scalar Lean model of BADA-3 thrust/fuel-flow/specific-ground-range/mass updates/iteration drivers; theorems over ℝ (mass profile starts/ends at the prescribed mass, never increases, step decrease = trapezoid, thrust ≤ max, negative thrust replaced, cruise factor only in cruise, initial mass ≤ MTOW) + correspondence with Bada3FuelBurnModel (bit-identical updates)',
          'no theorem about rounding; BADA idle fuel flow outside the property'),
  'C20': ('ThreadGuard', 'inductive-invariant proof of mutual exclusion for the line-level guard program under every schedule and any number of threads (plus repeated calls), race witness for the unlocked guard; correspondence: real threads under a sys.settrace line scheduler, all interleavings, outcome and traced-line counts compared with the model',
@@ -38,7 +40,6 @@ PENDING = {
  'C15': 'ground-track model still under construction in this session; not yet claimed',
  'C16': 'wind model still under construction in this session; not yet claimed',
  'C17': 'builder state-machine model still under construction in this session; not yet claimed',
- 'C18': 'configuration singleton model still under construction in this session; not yet claimed',
 }
 import sys
 done = [p for p in P if (ROOT / 'harness' / f'{p.lower()}.py').exists() and (ROOT / 'lean' / 'AeicProofs' / 'Properties' / f'{p}.lean').exists()]
